@@ -48,11 +48,14 @@ pub struct CorpusCfg {
     /// keep only queries for which this returns true (after enumeration, before compilation)
     pub keep: Option<Arc<dyn Fn(&Query) -> bool + Send + Sync>>,
     pub seeds: Vec<Query>,
+    /// when the AST-based variable typing is undefined for a query the frontend accepted, take the
+    /// variable types from the IR instead (only for checks whose oracle does not depend on them)
+    pub ir_var_types_fallback: bool,
 }
 
 impl CorpusCfg {
     pub fn new(k: usize) -> Self {
-        CorpusCfg { k, gen: GenCfg::default(), wide_args: false, args_cap_per_var: 2, max_arg_maps: 8, keep: None, seeds: qgen::skeletons() }
+        CorpusCfg { k, gen: GenCfg::default(), wide_args: false, args_cap_per_var: 2, max_arg_maps: 8, keep: None, seeds: qgen::skeletons(), ir_var_types_fallback: false }
     }
 }
 
@@ -201,6 +204,7 @@ pub fn drive(
         irs.lock().unwrap().insert(crate::common::fnv(format!("{:?}", iq.ir_query).as_bytes()));
         let var_types = match reference::expected_variable_types(sm, q) {
             Ok(v) => v,
+            Err(_) if cfg.ir_var_types_fallback => iq.ir_query.variables.iter().map(|(k, t)| (k.to_string(), TyRef::parse(&t.to_string()))).collect(),
             Err(_) => {
                 undefined.fetch_add(1, Ordering::Relaxed);
                 return;
